@@ -2,7 +2,7 @@
    A grammar case is (abstract file f, translated?, the text that was fed to ttconv.srt.reader.to_model,
    the canonicalised result of the implementation).  `translated` says whether the text went through a
    text-mode file object with universal newlines (as `tt convert` opens it) or through io.StringIO. *)
-From TT Require Import Base.Prelude Base.SrtTypes Gen.SrtTables Model.SrtReader Spec.SrtCueSpec.
+From TT Require Import Base.Prelude Base.SrtTypes Gen.SrtTables Model.SrtReader Spec.SrtCueSpec Spec.SrtWriterOut.
 From Coq Require Import QArith.
 Local Open Scope Z_scope.
 
@@ -32,23 +32,37 @@ Definition tc_of (g : gcase) : tcase := let '(_, tr, txt, out) := g in (tr, txt,
 (* the text fed to the implementation is what S prints for f, and f is in the grammar *)
 Definition print_ok (g : gcase) : bool := let '(f, _, txt, _) := g in text_eqb (print_file f) txt && wf_file f.
 
-(* S accepts the implementation's result: strict, and with the recorded findings excused *)
-Definition spec_strict (g : gcase) : bool :=
+(* S accepts the implementation's result *)
+Definition spec_ok (g : gcase) : bool :=
   let '(f, _, _, out) := g in
   outcome_eqb (list_eqb cue_eqb) (outcome_map (map observe) out) (Ok (cues f)).
-Definition trig_brace (g : gcase) : bool := let '(f, _, _, _) := g in trigger_brace_short f.
-Definition trig_stray (g : gcase) : bool := let '(f, _, _, _) := g in trigger_stray_end f.
-Definition trig_backslash (g : gcase) : bool := let '(f, _, _, _) := g in trigger_backslash f.
-Definition trig_crlf (g : gcase) : bool := let '(f, tr, _, _) := g in trigger_crlf_untranslated f tr.
-Definition excused (g : gcase) : bool := trig_brace g || trig_stray g || trig_backslash g || trig_crlf g.
-Definition spec_ok (g : gcase) : bool := excused g || spec_strict g.
 
 (* M = S on the same abstract file, evaluated (a test of the theorems' statement on samples, and the
    violation search's way of telling "M and the code moved together" from "only the code moved") *)
 Definition model_spec (g : gcase) : bool :=
   let '(f, tr, _, _) := g in
-  excused g ||
   match run_m tr (print_file f) with
   | Unmodelled => true
   | got => outcome_eqb (list_eqb cue_eqb) (outcome_map (map observe) got) (Ok (cues f))
+  end.
+
+(* ---- outputs of ttconv's SRT writer, parsed back by the harness into the abstract description of
+   Spec/SrtWriterOut.v: (cues, translated?, the writer's output, what the reader made of it) *)
+Definition wcase := (list wcue * bool * text * impl_out)%type.
+Definition W (counter : text) (b e : Z) (p : list wnode) : wcue := mkW counter b e p.
+(* the output is exactly what the description prints for these cues, and they meet its side conditions *)
+Definition wprint_ok (w : wcase) : bool := let '(cs, _, txt, _) := w in text_eqb (wprint cs) txt && wwf cs.
+Definition wtrig_hours (w : wcase) : bool := let '(cs, _, _, _) := w in trigger_hours_1000 cs.
+(* S on the code: the reader returned the cues that were written *)
+Definition wspec_strict (w : wcase) : bool :=
+  let '(cs, _, _, out) := w in
+  outcome_eqb (list_eqb cue_eqb) (outcome_map (map observe) out) (Ok (map wmeaning cs)).
+Definition wspec_ok (w : wcase) : bool := wtrig_hours w || wspec_strict w.
+(* the finding's shape: above 999 h the reader returns None *)
+Definition wmodel_spec (w : wcase) : bool :=
+  let '(cs, tr, txt, _) := w in
+  wtrig_hours w ||
+  match run_m tr txt with
+  | Unmodelled => true
+  | got => outcome_eqb (list_eqb cue_eqb) (outcome_map (map observe) got) (Ok (map wmeaning cs))
   end.
